@@ -12,7 +12,7 @@ EXPLANATION = (
     "bodies that assign Unpacker.iter are new_impl, use_up, read_data and read_raw, and in the latter two the new iterator is "
     "`rest.iter()` with `rest` the second half of split_at(iter.as_slice(), n).  R4 (mask/shift agreement of write_int and "
     "read_int): both sides use 6 payload bits in the first byte (mask 0x3f, shift 6) and 7 in the following ones (mask 0x7f, "
-    "shift 7 / 6 + 7*i), the sign in bit 6 and the extend flag in bit 7.  R5: write_data converts the length with try_i32 and "
+    "shift 7 / 6 + 7*i), the sign in bit 6 and the extend flag in bit 7.  R4b: the padding test on the fifth byte masks exactly the bits that cannot carry value (0xf0, derived from 6 + 7k payload bits and a 31-bit magnitude).  R4c: the writer's extend flag is (remaining != 0) after the shift.  R2b: read_data / read_raw refuse exactly when available < needed.  R5: write_data converts the length with try_i32 and "
     "reports CapacityError.  Not decided: the integer bijection on all 2^32 values, shortest-form canonicity and agreement with "
     "doc/int.md -- a data-dependent loop whose result is a number is outside a path-insensitive analysis."
 )
@@ -27,6 +27,9 @@ def run(ctx, rep):
     iter_writers(ctx.prog, rep)
     masks(ctx.prog, rep)
     write_data(ctx.prog, rep)
+    padding_mask(ctx.prog, rep)
+    extend_flag(ctx.prog, rep)
+    tight_length_guards(ctx.prog, rep)
 
 
 def _err_returns(body):
@@ -190,3 +193,124 @@ def write_data(prog, rep):
     ok = any((t.get("callee") or "").endswith("::try_i32") for _, t in b.calls()) and \
         not any((t.get("callee") or "").endswith("::assert_i32") for _, t in b.calls())
     rep.ob(rule, "write_data converts the length with try_i32", ok, "a length above i32::MAX is CapacityError, not a panic", b.loc())
+
+
+def padding_mask(prog, rep):
+    """R4b: the reader warns about exactly the bits of the last byte that cannot carry value: with 6 + 7*k payload bits per
+    byte and a 31-bit magnitude (the sign travels in the first byte) the fifth byte has 31 - 27 = 4 payload bits, so the
+    padding mask is 0xf0 (three unused bits and the extend flag)"""
+    rule = "R4b-padding-mask"
+    r = prog.one(P + "read_int")
+    ir = IR(r)
+    w0 = bin(0x3f).count("1")
+    w = bin(0x7f).count("1")
+    # number of continuation bytes: upper bound of the range loop
+    last = None
+    for bi in sorted(r.live):
+        for si, st in enumerate(r.blocks[bi]["st"]):
+            if st["k"] == "assign" and st["r"]["k"] == "agg" and (st["r"].get("adt") or "").endswith("ops::Range"):
+                e = ir.rvalue(st["r"], (bi, si))
+                vals = [v[1] for n, v in e[4] if v[0] == "c"]
+                if len(vals) == 2:
+                    last = vals[1] - 1
+    if last is None:
+        raise AnchorLost("read_int: the continuation loop range was not found")
+    expected = 0xff & ~((1 << (31 - (w0 + w * last))) - 1)
+    masks_ = []
+    for bi in sorted(r.live):
+        t = r.blocks[bi]["term"]
+        if t["k"] != "switch":
+            continue
+        e = ir.term_operand(bi, t["o"])
+        if e[0] == "bin" and e[1] in ("Ne", "Eq") and e[3][0] == "c" and e[3][1] == 0 and e[2][0] == "bin" and e[2][1] == "BitAnd" and e[2][3][0] == "c":
+            m = e[2][3][1]
+            if m != 0x80:
+                # only when guarded by `i == last`
+                for c, rel, v, edge, dty in ir.edge_conditions(bi):
+                    if c[0] == "bin" and c[1] == "Eq" and c[3][0] == "c" and c[3][1] == last and ((rel == "==" and v == 1) or (rel == "notin" and 0 in v)):
+                        masks_.append((m, t.get("ln")))
+    rep.floor(rule, len(masks_), 1, "padding test on the last byte of read_int")
+    for m, ln in masks_:
+        rep.ob(rule, "mask of the last byte", m == expected,
+               "the last byte (index %d) carries %d value bits; padding mask %#04x" % (last, 31 - (w0 + w * last), m) if m == expected else
+               "the padding test uses mask %#04x but the bits that cannot carry value are %#04x: some non-canonical encodings are accepted silently" % (m, expected),
+               r.loc(ln))
+
+
+def extend_flag(prog, rep):
+    """R4c: the writer sets the extend flag (bit 7) of a byte iff value bits remain after that byte: the flag is
+    to_bit(int != 0, 7) evaluated after the shift that removed the byte's bits -- the same test that continues the loop"""
+    rule = "R4c-extend-flag"
+    w = prog.one(P + "write_int")
+    ir = IR(w)
+    n = 0
+    for bi, t in w.calls():
+        if (t.get("callee") or "") != P + "to_bit":
+            continue
+        bit = ir.term_operand(bi, t["args"][1])
+        if not (bit[0] == "c" and bit[1] == 7):
+            continue
+        n += 1
+        c = ir.term_operand(bi, t["args"][0])
+        okc = c[0] == "bin" and c[1] == "Ne" and c[3][0] == "c" and c[3][1] == 0 and c[2][0] == "var"
+        # the shift of that variable precedes the call within the same iteration
+        shifted = False
+        if okc:
+            l = c[2][1]
+            cur = bi
+            for _ in range(6):
+                for si, st in enumerate(w.blocks[cur]["st"]):
+                    if st["k"] == "assign" and st["p"]["l"] == l and not st["p"].get("pr") and st["r"]["k"] == "bin" and st["r"].get("op") in ("Shr", "ShrUnchecked"):
+                        shifted = True
+                ps = w.pred[cur]
+                if shifted or len(ps) != 1:
+                    break
+                cur = ps[0]
+        rep.ob(rule, "to_bit(.., 7) #%d" % (n - 1), okc and shifted,
+               "extend flag = (remaining value != 0), taken after the shift" if okc and shifted else
+               "the extend flag is computed as `%s`%s: a byte can announce a continuation that never comes (or hide one)"
+               % (show(strip_sites(c)), "" if shifted else " before the shift"), w.loc(t.get("ln")))
+    rep.floor(rule, n, 2, "extend flags written by write_int")
+
+
+def tight_length_guards(prog, rep):
+    """R2b: read_data / read_raw refuse exactly when fewer bytes are left than requested (a field may end at the end of the
+    buffer): the refusing edge is `available < needed`, not `<=`"""
+    rule = "R2b-tight-length-guard"
+    n = 0
+    for fn in ("Unpacker::read_data", "Unpacker::read_raw"):
+        b = prog.one(P + fn)
+        ir = IR(b)
+        splits = [bi for bi, t in b.calls() if (t.get("callee") or "").endswith("::split_at")]
+        if not splits:
+            raise AnchorLost("%s: no split_at" % fn)
+        for bi in sorted(b.live):
+            t = b.blocks[bi]["term"]
+            if t["k"] != "switch":
+                continue
+            e = ir.term_operand(bi, t["o"])
+            if e[0] != "bin" or e[1] not in ("Lt", "Le", "Gt", "Ge"):
+                continue
+            a, c = e[2], e[3]
+            if (a[0] == "len") == (c[0] == "len"):
+                continue
+            op = e[1]
+            if c[0] == "len":           # need OP avail  ->  avail OP' need
+                op = {"Lt": "Gt", "Le": "Ge", "Gt": "Lt", "Ge": "Le"}[op]
+            # which truth value leads to the refusal (split_at unreachable)?
+            refuse_when = None
+            for v, tb in t["targets"]:
+                if splits[0] not in b.reachable_from(tb):
+                    refuse_when = bool(v)
+            if refuse_when is None and splits[0] not in b.reachable_from(t["otherwise"]):
+                refuse_when = True if all(v == 0 for v, _ in t["targets"]) else False
+            if refuse_when is None:
+                continue
+            n += 1
+            # refusal condition over (avail, need)
+            cond = op if refuse_when else {"Lt": "Ge", "Le": "Gt", "Gt": "Le", "Ge": "Lt"}[op]
+            rep.ob(rule, fn, cond == "Lt",
+                   "refuses exactly when available < needed" if cond == "Lt" else
+                   "refuses when available %s needed: %s" % ({"Le": "<=", "Gt": ">", "Ge": ">="}[cond],
+                   "a field that ends exactly at the end of the buffer is rejected" if cond == "Le" else "the guard does not protect split_at"), b.loc(t.get("ln")))
+    rep.floor(rule, n, 2, "length guards of read_data / read_raw")
